@@ -128,7 +128,7 @@ class Harness:
         self.gate = gate  # async callable(label) or None
         self.sdl = None
         self.engine = None
-        self.hook_calls = 0
+        self.hooks = []  # (directive name, hook name) for every harness directive hook invocation
         self.fault_seq = itertools.count()
 
     # ---------------------------------------------------------------- resolvers
@@ -239,7 +239,7 @@ class Harness:
         for n in self.schema.get("directives") or {}:
             if n in ("skip", "include", "deprecated", "nonIntrospectable"):
                 continue
-            Directive(n, schema_name=self.name)(type("D_" + n, (), {}))
+            Directive(n, schema_name=self.name)(make_counting_directive(self, n))
 
     # ---------------------------------------------------------------- build
     def register(self):
@@ -289,9 +289,46 @@ class Harness:
         return self.mat.obj(self.tree.root(typename))
 
     def reset_logs(self):
+        self.hooks = []
         self.calls = []
         self.type_calls = []
         self.unexpected = []
+
+
+def make_counting_directive(H, name):
+    """pass-through directive implementing every per-field / per-value hook; counts invocations"""
+
+    class D:
+        async def on_argument_execution(self, directive_args, next_directive, parent_node, argument_definition_node, argument_node, value, ctx):
+            H.hooks.append((name, "on_argument_execution"))
+            return await next_directive(parent_node, argument_definition_node, argument_node, value, ctx)
+
+        async def on_post_input_coercion(self, directive_args, next_directive, parent_node, value, ctx):
+            H.hooks.append((name, "on_post_input_coercion"))
+            return await next_directive(parent_node, value, ctx)
+
+        async def on_field_execution(self, directive_args, next_resolver, parent, args, ctx, info):
+            H.hooks.append((name, "on_field_execution"))
+            return await next_resolver(parent, args, ctx, info)
+
+        async def on_pre_output_coercion(self, directive_args, next_directive, value, ctx, info):
+            H.hooks.append((name, "on_pre_output_coercion"))
+            return await next_directive(value, ctx, info)
+
+        async def on_field_collection(self, directive_args, next_directive, field_node, ctx):
+            H.hooks.append((name, "on_field_collection"))
+            return await next_directive(field_node, ctx)
+
+        async def on_fragment_spread_collection(self, directive_args, next_directive, fragment_spread_node, ctx):
+            H.hooks.append((name, "on_fragment_spread_collection"))
+            return await next_directive(fragment_spread_node, ctx)
+
+        async def on_inline_fragment_collection(self, directive_args, next_directive, inline_fragment_node, ctx):
+            H.hooks.append((name, "on_inline_fragment_collection"))
+            return await next_directive(inline_fragment_node, ctx)
+
+    D.__name__ = "D_" + name
+    return D
 
 
 class Unserialisable:
